@@ -92,6 +92,8 @@ def _accessor(geom, tag, valuation, rec):
     a = Obj(None, {"tag": tag, "type": t, "items": labels, "value": _value_for(t, labels, tag, valuation), "pos": geom.get("pos"), "length": geom.get("length"),
                    "read_write": geom.get("read_write")}, name=f"acc<{tag}>")
     a.published = tuple(labels) if labels is not None else None      # the table's list, kept aside: what the construction may not edit
+    a.published_rw = geom.get("read_write")
+    a.attrs["set_read_write"] = Native(lambda args, kw, a=a: a.attrs.__setitem__("read_write", args[0] if args else kw.get("rw")), "set_read_write")
     a.attrs["watch"] = Native(lambda args, kw: None, "watch")
     a.attrs["unwatch"] = Native(lambda args, kw: None, "unwatch")
     a.attrs["unwatch_all"] = Native(lambda args, kw: None, "unwatch_all")
@@ -374,7 +376,35 @@ def out_of_list_states(repo, T, valuation="mixed", unknown=True, subscribe=False
     return res
 
 
-def labels_after_reads(repo, T, valuation="mixed"):
+def writability_variants(T):
+    """per platform, one (richest config, log) pair for every distinct pattern of read-only / writable among the items whose
+    writability differs between the platform's log tables (an item published read-only in two old versions only)"""
+    by_plat = {}
+    for _p, cfg, log in T.combos():
+        by_plat.setdefault(cfg.platform, {"cfgs": {}, "logs": {}})
+        by_plat[cfg.platform]["cfgs"][cfg.stem] = cfg
+        by_plat[cfg.platform]["logs"][log.stem] = log
+    out = []
+    for plat, d in sorted(by_plat.items()):
+        rw = {}
+        for stem, log in d["logs"].items():
+            for it in log.items:
+                try:
+                    rw.setdefault(it.key, {})[stem] = T.geometry(it).get("read_write")
+                except Exception:  # noqa: BLE001
+                    pass
+        varying = sorted(k for k, v in rw.items() if len(set(map(repr, v.values()))) > 1)
+        cfg = max(d["cfgs"].values(), key=lambda c: len(c.keys()))
+        seen = set()
+        for stem, log in sorted(d["logs"].items()):
+            sig = tuple(repr(rw[k].get(stem)) for k in varying)
+            if sig not in seen and varying:
+                seen.add(sig)
+                out.append((plat, cfg, log))
+    return out
+
+
+def labels_after_reads(repo, T, valuation="mixed", variants=False):
     """For the richest shipped (config, log) pair of every platform and both facades: the label list of every item the
     construction looked at is compared with the list its table published, after the facade has been built AND every
     read-only member of every automation device (properties - `modes` included -, __str__, __repr__) has been read, as a
@@ -409,10 +439,18 @@ def labels_after_reads(repo, T, valuation="mixed"):
                 except (PyRaise, Undecided):
                     pass      # what a member returns or raises is C11's subject; here: what it leaves behind
         changed = [(k, list(before), list(v.attrs["items"])) for k, (v, before) in sorted(watched.items()) if tuple(v.attrs["items"]) != before]
+        # ... and what may be written is what the table publishes: a construction that makes an item writable
+        for k in list(dict.keys(accs)):
+            v = dict.__getitem__(accs, k)
+            if isinstance(v, Obj) and hasattr(v, "published_rw") and v.attrs.get("read_write") != v.published_rw:
+                changed.append((k, [f"RW={v.published_rw!r}"], [f"RW={v.attrs.get('read_write')!r}"]))
         return changed, len(watched)
     res = {}
-    for plat, (_n, cfg, log) in sorted(best.items()):
-        for facade_cls in FACADES:
+    pairs = [(plat, cfg, log) for plat, (_n, cfg, log) in sorted(best.items())]
+    if variants:
+        pairs = [p_ for p_ in writability_variants(T) if (p_[0], p_[1].stem, p_[2].stem) not in {(a_, b_.stem, c_.stem) for a_, b_, c_ in pairs}]
+    for plat, cfg, log in pairs:
+        for facade_cls in (FACADES if not variants else FACADES[:1]):
             r, _t, extra = build_one(repo, T, cfg, log, valuation, facade_cls, inspect=inspect)
             res[(plat, cfg.stem, log.stem, facade_cls)] = (r, extra)
     return res
